@@ -52,6 +52,11 @@ def run(ctx):
             jobs.append((cfg, gen(), 'random', n, ctx['seed'], ()))
             jobs.append((cfg, gen(), 'pct', n, ctx['seed'], ('--depth', '3')))
             jobs.append((dict(cfg, aba='1'), gen(), 'random', n, ctx['seed'] + 1, ()))
+        # the iterator returned by erase(iterator) stands on the successor: another thread erases (and, with the eager reclaimers,
+        # reclaims) that successor at every point of the erase; the returned iterator is then dereferenced and advanced (always both containers)
+        for cfg in ({'c': 'set'}, {'c': 'map', 'buckets': '1', 'memo': '0'}, {'c': 'map', 'buckets': '1', 'memo': '1', 'hash': 'const'}):
+            jobs.append((cfg, [['ins 10', 'ins 20', 'ins 30', 'ins 40', 'itf 20', 'ite', 'itd', 'itn', 'itd'], ['del 30']], 'prefix', 300, ctx['seed'], ()))
+            jobs.append((cfg, [['ins 10', 'ins 20', 'itb', 'ite', 'itd', 'itn'], ['del 20', 'ins 20']], 'prefix', 200, ctx['seed'], ()))
         # completeness across buckets: the element the iterator stands on is erased (it is the last of its bucket), later buckets hold
         # elements that stay for the whole traversal and must still be yielded
         for cfg in ({'c': 'map', 'buckets': '8', 'memo': '0'}, {'c': 'map', 'buckets': '2', 'memo': '1', 'hash': 'mod2'}, {'c': 'set'}):
